@@ -166,3 +166,16 @@ func ZZ_C09_slow_retarget() {
 	lo2 := CompactToBig(BigToCompact(lo))
 	nd.Assert(nt.Cmp(lo2) >= 0, "at_most_factor_down")
 }
+
+// ZZ_C09_decode: CompactToBig agrees with the reference decoder
+// (mantissa * 256^(e-3), truncated for e < 3, negated by the sign bit) for
+// every exponent byte 0..255 and every 24 mantissa/sign bits.
+func ZZ_C09_decode() {
+	e := nd.Choose("exponent", 256)
+	low := nd.U32("mantissa_and_sign")
+	nd.Assume(low <= 0x00ffffff)
+	n := CompactToBig(uint32(e)<<24 | low)
+	ref := zzRefCompact(e, low&0x007fffff, low&0x00800000 != 0)
+	nd.Reach("decoded")
+	nd.Assert(n.Cmp(ref) == 0, "decode_matches_reference")
+}
